@@ -1,9 +1,12 @@
 import AasVerif.Model.Expr.Conforms
+import AasVerif.Lemmas.EvalAgree
 /-!
 Basic facts for the none-safety proof of the inferrer: the invariant that is carried through
 the traversal, inversion lemmas for `HasTy`, and how the fact-flow helpers keep the invariant.
 -/
 namespace AasVerif.Expr
+
+variable {κ : Type} [DecidableEq κ]
 
 /-- types about whose values the inferrer's result says nothing reliable (primitives: the
 operand checks are missing; functions: not values) -/
@@ -16,14 +19,20 @@ def Agrees (D : Decls) (v : Val) (τ : Ty) : Prop := τ.isLoose = true ∨ HasTy
 
 def Good (D : Decls) (o : Out) (τ : Ty) : Prop := o ≠ .noneDeref ∧ ∀ v, o = .val v → Agrees D v τ
 
+/-- A fact about `e` established in an enclosing scope `(Γ0, ρ0)`: there `e` was well-typed and
+evaluated to a non-`None` value, and the current environments only added variables since. -/
+def FactOK (key : Expr → κ) (Γ : TEnv) (ρ : Env) (e : Expr) : Prop :=
+  ∃ (Γ0 : TEnv) (ρ0 : Env) (F' : Facts κ) (τ : Ty), infer key Γ0 F' e = .ok τ ∧ AgreeOn Γ0 ρ0 ρ ∧
+    (∀ y, (Γ0.find y).isSome = true → (Γ.find y).isSome = true) ∧ ∃ v, eval ρ0 e = .val v ∧ v ≠ .none
+
 /-- The invariant of the traversal. -/
-structure Inv (key : Expr → Text) (Γ : TEnv) (F : Facts) (ρ : Env) : Prop where
+structure Inv (key : Expr → κ) (Γ : TEnv) (F : Facts κ) (ρ : Env) : Prop where
   conf : Conforms ρ Γ
   wf : Γ.decls.WF
   safe : EnvSafe ρ
   calls : CallsConform ρ Γ
   /-- every assumed fact is true: the expression with that key evaluates to a non-`None` value -/
-  facts : ∀ e, key e ∈ F → ∃ v, eval ρ e = .val v ∧ v ≠ .none
+  facts : ∀ e, key e ∈ F → FactOK key Γ ρ e
 
 theorem HasTy.prim_ne_none {D : Decls} {v : Val} {p : Prim} (h : HasTy D v (.prim p)) (hp : p ≠ .none) :
     v ≠ .none := by
@@ -40,7 +49,7 @@ theorem HasTy.of_opt {D : Decls} {v : Val} {τ : Ty} (h : HasTy D v (.opt τ)) (
   | optNone _ => exact absurd rfl hv
   | optSome h => exact h
 
-theorem strip_agrees {D : Decls} {v : Val} {τ : Ty} {F : Facts} {k : Text}
+theorem strip_agrees {D : Decls} {v : Val} {τ : Ty} {F : Facts κ} {k : κ}
     (h : Agrees D v τ) (hn : k ∈ F → v ≠ .none) : Agrees D v (strip F k τ) := by
   cases τ <;> try exact h
   rename_i τ'
@@ -78,29 +87,76 @@ theorem isNone_falsy {ρ : Env} {x : Expr} {v : Val} (h : eval ρ (.isNone x) = 
     simp [eval, he, Out.ofBool] at h; subst h; simp [Val.truthy] at ht
   | _ => simp [eval, he] at h
 
-variable {key : Expr → Text}
+variable {key : Expr → κ}
 
-theorem Inv.addFact {Γ : TEnv} {F : Facts} {ρ : Env} (hk : Function.Injective key) (inv : Inv key Γ F ρ)
-    {x : Expr} (hx : ∃ w, eval ρ x = .val w ∧ w ≠ .none) : Inv key Γ (key x :: F) ρ :=
+theorem Inv.fact_val {Γ : TEnv} {F : Facts κ} {ρ : Env} (inv : Inv key Γ F ρ) {e : Expr} (hk : key e ∈ F) :
+    ∃ v, eval ρ e = .val v ∧ v ≠ .none := by
+  obtain ⟨Γ0, ρ0, F', τ, hinf, hag, _, v, hv, hne⟩ := inv.facts e hk
+  exact ⟨v, by rw [eval_agree e Γ0 F' ρ0 ρ τ hinf hag]; exact hv, hne⟩
+
+theorem Inv.addFact {Γ : TEnv} {F : Facts κ} {ρ : Env} (hk : Function.Injective key) (inv : Inv key Γ F ρ)
+    {x : Expr} (hx : ∃ w, eval ρ x = .val w ∧ w ≠ .none) (ht : ∃ (F' : Facts κ) (τ : Ty), infer key Γ F' x = .ok τ) :
+    Inv key Γ (key x :: F) ρ :=
   { inv with
     facts := by
       intro e he
       rcases List.mem_cons.mp he with h | h
       · have : e = x := hk h
-        subst this; exact hx
+        subst this
+        obtain ⟨F', τ, hinf⟩ := ht
+        exact ⟨Γ, ρ, F', τ, hinf, AgreeOn.refl Γ ρ, fun _ h => h, hx⟩
       · exact inv.facts e h }
 
-theorem Inv.andFact {Γ : TEnv} {F : Facts} {ρ : Env} (hk : Function.Injective key) (inv : Inv key Γ F ρ)
-    {e : Expr} {v : Val} (h : eval ρ e = .val v) (ht : v.truthy ρ.fops = true) :
+theorem isNotNone_inf {Γ : TEnv} {F : Facts κ} {x : Expr} {τ : Ty} (h : infer key Γ F (.isNotNone x) = .ok τ) :
+    ∃ (F' : Facts κ) (τx : Ty), infer key Γ F' x = .ok τx := by
+  simp only [infer] at h
+  cases hx : infer key Γ F x with
+  | ok τx => exact ⟨F, τx, hx⟩
+  | err es => simp [hx] at h
+  | crash s => simp [hx] at h
+
+theorem isNone_inf {Γ : TEnv} {F : Facts κ} {x : Expr} {τ : Ty} (h : infer key Γ F (.isNone x) = .ok τ) :
+    ∃ (F' : Facts κ) (τx : Ty), infer key Γ F' x = .ok τx := by
+  simp only [infer] at h
+  cases hx : infer key Γ F x with
+  | ok τx => exact ⟨F, τx, hx⟩
+  | err es => simp [hx] at h
+  | crash s => simp [hx] at h
+
+theorem Inv.andFact {Γ : TEnv} {F : Facts κ} {ρ : Env} (hk : Function.Injective key) (inv : Inv key Γ F ρ)
+    {e : Expr} {v : Val} (h : eval ρ e = .val v) (ht : v.truthy ρ.fops = true)
+    (hinf : ∃ (F' : Facts κ) (τ : Ty), infer key Γ F' e = .ok τ) :
     Inv key Γ (andFact key F e) ρ := by
   cases e <;> try exact inv
-  exact inv.addFact hk (isNotNone_truthy h ht)
+  obtain ⟨F', τ, hinf⟩ := hinf
+  exact inv.addFact hk (isNotNone_truthy h ht) (isNotNone_inf hinf)
 
-theorem Inv.orFact {Γ : TEnv} {F : Facts} {ρ : Env} (hk : Function.Injective key) (inv : Inv key Γ F ρ)
-    {e : Expr} {v : Val} (h : eval ρ e = .val v) (ht : v.truthy ρ.fops = false) :
+theorem Inv.orFact {Γ : TEnv} {F : Facts κ} {ρ : Env} (hk : Function.Injective key) (inv : Inv key Γ F ρ)
+    {e : Expr} {v : Val} (h : eval ρ e = .val v) (ht : v.truthy ρ.fops = false)
+    (hinf : ∃ (F' : Facts κ) (τ : Ty), infer key Γ F' e = .ok τ) :
     Inv key Γ (orFact key F e) ρ := by
   cases e <;> try exact inv
-  exact inv.addFact hk (isNone_falsy h ht)
+  obtain ⟨F', τ, hinf⟩ := hinf
+  exact inv.addFact hk (isNone_falsy h ht) (isNone_inf hinf)
+
+theorem inferAnd_ok_each {Γ : TEnv} : ∀ (vs : List Expr) {F : Facts κ} {u : Unit}, inferAnd key Γ F vs = .ok u →
+    ∀ e, e ∈ vs → ∃ (F' : Facts κ) (τ : Ty), infer key Γ F' e = .ok τ
+  | [], _, _, _ => by simp
+  | e :: es, F, u, h => by
+    simp only [inferAnd] at h
+    cases he : infer key Γ F e with
+    | err xs => simp [he] at h
+    | crash s => simp [he] at h
+    | ok te =>
+      simp only [he] at h
+      cases hes : inferAnd key Γ (Expr.andFact key F e) es with
+      | err xs => simp [hes] at h
+      | crash s => simp [hes] at h
+      | ok u' =>
+        intro e' he'
+        rcases List.mem_cons.mp he' with rfl | hmem
+        · exact ⟨F, te, he⟩
+        · exact inferAnd_ok_each es hes e' hmem
 
 theorem evalAnd_truthy_all {ρ : Env} : ∀ (vs : List Expr) {v : Val}, evalAnd ρ vs = .val v → v.truthy ρ.fops = true →
     ∀ e, e ∈ vs → ∃ w, eval ρ e = .val w ∧ w.truthy ρ.fops = true
@@ -129,21 +185,78 @@ theorem evalAnd_truthy_all {ρ : Env} : ∀ (vs : List Expr) {v : Val}, evalAnd 
     | _ => simp [he] at h
 
 theorem Inv.andFacts {Γ : TEnv} {ρ : Env} (hk : Function.Injective key) :
-    ∀ (vs : List Expr) {F : Facts}, Inv key Γ F ρ →
-      (∀ e, e ∈ vs → ∃ w, eval ρ e = .val w ∧ w.truthy ρ.fops = true) → Inv key Γ (andFacts key F vs) ρ
-  | [], _, inv, _ => by simpa [Expr.andFacts] using inv
-  | e :: es, F, inv, h => by
+    ∀ (vs : List Expr) {F : Facts κ}, Inv key Γ F ρ →
+      (∀ e, e ∈ vs → ∃ w, eval ρ e = .val w ∧ w.truthy ρ.fops = true) →
+      (∀ e, e ∈ vs → ∃ (F' : Facts κ) (τ : Ty), infer key Γ F' e = .ok τ) → Inv key Γ (andFacts key F vs) ρ
+  | [], _, inv, _, _ => by simpa [Expr.andFacts] using inv
+  | e :: es, F, inv, h, ht => by
     simp only [Expr.andFacts]
-    obtain ⟨w, hw, ht⟩ := h e (by simp)
-    exact Inv.andFacts hk es (inv.andFact hk hw ht) (fun e' he' => h e' (by simp [he']))
+    obtain ⟨w, hw, htr⟩ := h e (by simp)
+    exact Inv.andFacts hk es (inv.andFact hk hw htr (ht e (by simp))) (fun e' he' => h e' (by simp [he']))
+      (fun e' he' => ht e' (by simp [he']))
 
-theorem Inv.implFacts {Γ : TEnv} {F : Facts} {ρ : Env} (hk : Function.Injective key) (inv : Inv key Γ F ρ)
-    {a : Expr} {v : Val} (h : eval ρ a = .val v) (ht : v.truthy ρ.fops = true) :
+theorem Inv.implFacts {Γ : TEnv} {F : Facts κ} {ρ : Env} (hk : Function.Injective key) (inv : Inv key Γ F ρ)
+    {a : Expr} {v : Val} (h : eval ρ a = .val v) (ht : v.truthy ρ.fops = true)
+    {τ : Ty} (hinf : infer key Γ F a = .ok τ) :
     Inv key Γ (implFacts key F a) ρ := by
   cases a <;> try exact inv
-  · exact inv.addFact hk (isNotNone_truthy h ht)
+  · exact inv.addFact hk (isNotNone_truthy h ht) (isNotNone_inf hinf)
   · rename_i vs
     simp only [eval] at h
-    exact Inv.andFacts hk vs inv (evalAnd_truthy_all vs h ht)
+    simp only [infer] at hinf
+    cases ha : inferAnd key Γ F vs with
+    | err xs => simp [ha] at hinf
+    | crash s => simp [ha] at hinf
+    | ok u => exact Inv.andFacts hk vs inv (evalAnd_truthy_all vs h ht) (inferAnd_ok_each vs ha)
+
+/-- entering a generator: the loop variable is new and its value has the item type -/
+theorem Inv.bind {Γ : TEnv} {F : Facts κ} {ρ : Env} (inv : Inv key Γ F ρ) {x : Text} {τx : Ty} {item : Val}
+    (hx : Γ.find x = none) (hty : HasTy Γ.decls item τx) : Inv key (Γ.bind x τx) F (ρ.bind x item) := by
+  have hnf : τx.isFn = false := by cases hty <;> rfl
+  have hfind : ∀ n σ, (Γ.bind x τx).find n = some σ → σ.isFn = true → Γ.find n = some σ := by
+    intro n σ h hfn
+    rw [find_bind] at h
+    by_cases hxn : x = n
+    · simp only [hxn, if_true, Option.some.injEq] at h
+      subst h
+      rw [hnf] at hfn; cases hfn
+    · simpa [hxn] using h
+  refine
+    { conf := ?_, wf := inv.wf, safe := ⟨inv.safe.funs, inv.safe.meths, inv.safe.cmp, inv.safe.arith, inv.safe.fmt⟩,
+      calls := ?_, facts := ?_ }
+  · intro y σ h
+    rw [find_bind] at h
+    rw [lookup_bind]
+    by_cases hxy : x = y
+    · simp only [hxy, if_true, Option.some.injEq] at h
+      subst h
+      exact Or.inr ⟨item, by simp [hxy], hty⟩
+    · simp only [hxy, if_false] at h ⊢
+      exact inv.conf y σ h
+  · exact
+      { impl := fun n m ret h => inv.calls.impl n m ret (hfind n _ h rfl)
+        builtin := fun n m ret h => inv.calls.builtin n m ret (hfind n _ h rfl)
+        funs := fun n m ret f vs v h hf hv =>
+          inv.calls.funs n m ret f vs v (h.imp (fun h => hfind n _ h rfl) (fun h => hfind n _ h rfl)) hf hv
+        meths := inv.calls.meths }
+  · intro e he
+    obtain ⟨Γ0, ρ0, F', τ, hinf, hag, hsub, hv⟩ := inv.facts e he
+    refine ⟨Γ0, ρ0, F', τ, hinf, ?_, ?_, hv⟩
+    · exact
+        { funs := hag.funs, meths := hag.meths, fops := hag.fops, fmtOther := hag.fmtOther
+          vars := by
+            intro y hy
+            rw [lookup_bind]
+            by_cases hxy : x = y
+            · subst hxy
+              have := hsub x hy
+              rw [hx] at this; cases this
+            · simp only [hxy, if_false]
+              exact hag.vars y hy }
+    · intro y hy
+      rw [find_bind]
+      by_cases hxy : x = y
+      · simp [hxy]
+      · simpa [hxy] using hsub y hy
 
 end AasVerif.Expr
